@@ -22,7 +22,6 @@ func VerifC12NewVerifyClient(socket string, timeout time.Duration) *VerifyClient
 				DialContext: func(_ context.Context, _, _ string) (net.Conn, error) {
 					return net.Dial("unix", socket)
 				},
-				DisableKeepAlives: true,
 			},
 		},
 		timeout: timeout,
